@@ -99,9 +99,43 @@ def de_op(o):
     return o
 
 
+def wallet_delta_oracle(ctx, ver, w, op, out, res, pre, post, rep):
+    """the ledger of the round-trip / sequence theorems IS the wallet: an accepted buy / deposit takes exactly the amounts passed out of the
+    wallet, an accepted sell / withdraw puts exactly the returned amounts in, every other balance (and, on a rejected call, every balance)
+    stays as it was.  Evaluated on the broker's own balances before and after the call (35-digit Decimal additions: 1e-30 relative)."""
+    want = {}
+    kind = op["kind"]
+    if out == "ok":
+        if kind == "buy":
+            want[w.token(op["tok"], op.get("dec")).name] = -F(op["amount"])
+        elif kind == "sell":
+            want[w.token(op["tok"], op.get("dec")).name] = F(res)
+        elif kind == "deposit":
+            for t, a in ((w.long, op["long"]), (w.short, op["short"])):
+                want[t.name] = want.get(t.name, F(0)) - F(float(a))
+        elif kind == "withdraw":
+            for t, a in ((w.long, res.long_amount), (w.short, res.short_amount)):
+                want[t.name] = want.get(t.name, F(0)) + F(a)
+    b0 = {k: F(v) for k, v in pre["wallet"]}
+    b1 = {k: F(v) for k, v in post["wallet"]}
+    for k in sorted(set(b0) | set(b1) | set(want)):
+        d, e = b1.get(k, F(0)) - b0.get(k, F(0)), want.get(k, F(0))
+        if d != e and abs(d - e) > G.TOL30 * max(abs(b0.get(k, F(0))), abs(b1.get(k, F(0))), abs(e)):
+            p0 = b0.get(k, F(0))
+            if out == "ok" and kind in ("buy", "deposit") and not w.allow_negative and k in b1 and b1[k] == 0 and p0 != 0 and abs(p0 + e) < F(0.00001) * abs(p0):
+                # the broker's documented dust sweep (Asset.sub): a debit within 0.001 % of the balance takes the whole balance
+                ctx.count(f"wallet_dust_sweep_debits:v{ver}")
+                continue
+            name = {"buy": "buy_glp", "sell": "sell_glp"}.get(kind, kind)
+            ctx.violate(f"v{ver}.{name}.wallet_delta" + ("" if out == "ok" else ".rejected"),
+                        f"{name}({', '.join(repr(op[x]) for x in ('tok', 'amount', 'long', 'short') if x in op)}) -> {out}: wallet balance of {k} moved by {float(d)!r} "
+                        f"(from {b0.get(k)} to {b1.get(k)}); the call's own amounts say {float(e)!r}", rep)
+
+
 def v1_step_oracle(ctx, w, op, cls, out, res, pre, post, spec, rep=None):
     """the C17 clauses that are visible on one call"""
     rep = rep or {"world": spec, "ops": [ser_op(op)]}
+    wallet_delta_oracle(ctx, 1, w, op, out, res, pre, post, rep)
     if op["kind"] == "fee":
         if out == "ok":
             v1_fee_oracle(ctx, w, op["tok"], int(op["amount"]), op["increase"], res, rep)
@@ -269,9 +303,15 @@ def v1_roundtrip_case(ctx, spec, tok, amount, parts, record=True):
     """buy `amount` of tok, sell the minted GLP back (in `parts` pieces) for the same token, same bar. True = no profit."""
     w = G.V1World.from_spec(spec)
     t = w.token(tok)
-    out, g, _ = w.apply({"kind": "buy", "tok": tok, "amount": amount})
+    rep = {"world": spec, "roundtrip": {"tok": tok, "amount": str(amount), "parts": parts}}
+    sub = ctx if record else Ctx(ctx.prop, ctx.tier, ctx.seed, False)
+    pre = w.dump()
+    op = {"kind": "buy", "tok": tok, "amount": amount}
+    out, g, _ = w.apply(op)
+    wallet_delta_oracle(sub, 1, w, op, out, g, pre, w.dump(), rep)
     if out != "ok":
         return None
+    wallet0 = F(dict(pre["wallet"]).get(t.name, 0))
     got = Decimal(0)
     rest = g
     for i in range(parts):
@@ -280,14 +320,25 @@ def v1_roundtrip_case(ctx, spec, tok, amount, parts, record=True):
             continue
         if piece == 0:
             break            # sell_glp(0) would mean "everything held"
-        o2, r2, _ = w.apply({"kind": "sell", "tok": tok, "amount": piece})
+        pre = w.dump()
+        op = {"kind": "sell", "tok": tok, "amount": piece}
+        o2, r2, _ = w.apply(op)
+        wallet_delta_oracle(sub, 1, w, op, o2, r2, pre, w.dump(), rep)
         if o2 != "ok":
             return None
         got += r2
         rest -= piece
     ok = F(got) <= F(amount) * (1 + G.TOL30)
     if not ok and record:
-        ctx.violate("v1.roundtrip.profit", f"buy_glp({tok}, {amount}) then selling the {g} GLP returns {got} > paid", {"world": spec, "roundtrip": {"tok": tok, "amount": str(amount), "parts": parts}})
+        ctx.violate("v1.roundtrip.profit", f"buy_glp({tok}, {amount}) then selling the {g} GLP returns {got} > paid", rep)
+    # the same statement on the wallet itself: after the round trip the token balance is not above where it started
+    wallet1 = F(dict(w.dump()["wallet"]).get(t.name, 0))
+    if wallet1 > wallet0 + G.TOL30 * max(abs(wallet0), abs(wallet1)):
+        ok = False
+        if record:
+            ctx.violate("v1.roundtrip.profit", f"buy_glp({tok}, {amount}) then selling the {g} GLP: wallet {t.name} went from {float(wallet0)!r} to {float(wallet1)!r}", rep)
+    if sub is not ctx and sub.violations:
+        ok = False
     return ok, got, g
 
 
@@ -511,6 +562,8 @@ def v2_formula_oracle(ctx, w: G.V2World, op, r, pre_amount, rep):
 
 def v2_step_oracle(ctx, w, op, out, res, pre, post, rep):
     a0, a1 = pre["amount"], post["amount"]
+    if out != "ok" or all(math.isfinite(float(getattr(res, k))) for k in ("long_amount", "short_amount")):
+        wallet_delta_oracle(ctx, 2, w, op, out, res, pre, post, rep)
     if a0 >= 0 and (a1 < 0 or math.isnan(a1)):
         ctx.violate(f"v2.{op['kind']}.negative_holding", f"{op['kind']} leaves amount = {a1!r} (was {a0!r})", rep)
     if op["kind"] == "withdraw" and out == "ok":
@@ -670,10 +723,20 @@ def v2_multibar(ctx: Ctx, n: int):
 
 def v2_roundtrip_case(ctx, spec, la, sa, record=True):
     w = G.V2World.from_spec(spec)
-    out, r, _ = w.apply({"kind": "deposit", "long": la, "short": sa})
+    rep = {"world": spec, "roundtrip": {"long": repr(la), "short": repr(sa)}}
+    sub = ctx if record else Ctx(ctx.prop, ctx.tier, ctx.seed, False)
+    pre0 = w.dump()
+    op = {"kind": "deposit", "long": la, "short": sa}
+    out, r, _ = w.apply(op)
+    mid = w.dump()
+    wallet_delta_oracle(sub, 2, w, op, out, r, pre0, mid, rep)
     if out != "ok":
         return None
-    o2, r2, _ = w.apply({"kind": "withdraw", "amount": r.gm_amount})
+    op2 = {"kind": "withdraw", "amount": r.gm_amount}
+    o2, r2, _ = w.apply(op2)
+    post = w.dump()
+    if o2 != "ok" or all(math.isfinite(x) for x in (r2.long_amount, r2.short_amount)):
+        wallet_delta_oracle(sub, 2, w, op2, o2, r2, mid, post, rep)
     if o2 != "ok":
         return None
     d = w.market._market_status.data
@@ -682,10 +745,20 @@ def v2_roundtrip_case(ctx, spec, la, sa, record=True):
     back = F(r2.long_amount) * lp + F(r2.short_amount) * sp
     imp = r.price_impact_usd
     ok = back <= paid * (1 + F(1, 10 ** 12))
+    # the same on the wallet itself: value of (long, short) balances after vs before the round trip, at the row's prices
+    val = lambda dmp: sum(F(v) * (lp if k == w.long.name else sp) for k, v in dmp["wallet"] if k in (w.long.name, w.short.name))
+    v0, v1 = val(pre0), val(post)
+    if v1 - v0 > (back - paid) + F(1, 10 ** 12) * max(abs(v0), abs(v1), paid):
+        ok = False
+        if record:
+            ctx.violate("v2.roundtrip.wallet_value", f"deposit({la!r}, {sa!r}) then withdraw of the minted GM: wallet value moved by {float(v1 - v0)!r} USD while the calls "
+                        f"returned {float(back)!r} for {float(paid)!r} paid", rep)
+    if sub is not ctx and sub.violations:
+        ok = False
     if not ok and record:
         key = "v2.roundtrip.profit.positive_impact" if imp > 0 else "v2.roundtrip.profit"
         ctx.violate(key, f"deposit({la!r}, {sa!r}) then withdraw of the minted {r.gm_amount!r} GM returns value {float(back)!r} > paid {float(paid)!r} (price impact {imp!r} USD)",
-                    {"world": spec, "roundtrip": {"long": repr(la), "short": repr(sa)}})
+                    rep)
     return ok, imp, paid, back
 
 
